@@ -204,14 +204,14 @@ func init() {
 		ID:    "C20",
 		Level: "fault_enumeration",
 		Rule: "deviation-bounded DFS over 5..6-scan histories of worlds holding odd objects (no allocatable, provider ids \"\", \"garbage\", \"aws://x\", taint values \"\", \"abc\", \"-5\", 20 nines, pods without requests / containers / with empty and partial affinity), nodes with odd provider ids registering during a cool-down (SetDesiredCapacity and fleet mode), zero-capacity and vanished groups; " +
-			"a failure is injected at every Kubernetes / AWS call and lister of every scan, single (quick) and double (thorough), DescribeInstances failing slot-wide; non-trivial = scans with an injected fault or an odd object in view; distinct = distinct execution traces",
+			"a failure is injected at every Kubernetes / AWS call and lister of every scan, up to 3 deviations (quick) / 4 (thorough), DescribeInstances failing slot-wide; non-trivial = scans with an injected fault or an odd object in view; distinct = distinct execution traces",
 		Scenarios: C20Scenarios,
 		Monitors:  func() []h.Monitor { return []h.Monitor{&NoCrash{D: NewDecisions()}} },
 		Bound: func(tier string) int {
 			if tier == "thorough" {
-				return 3
+				return 4
 			}
-			return 2
+			return 3
 		},
 		Prune:       true,
 		Nontrivial:  func(hh *h.Hist) []string { return []string{fmt.Sprint(hh.Trace)} },
